@@ -186,6 +186,10 @@ EXC = {
     'KeyboardInterrupt': KeyboardInterrupt, 'Exception': Exception,
     'NotImplementedError': NotImplementedError,
     'AssertionError': AssertionError, 'UnicodeError': UnicodeError,
+    'SyntaxError': SyntaxError, 'IndentationError': IndentationError,
+    'ImportError': ImportError, 'RecursionError': RecursionError,
+    'BlockingIOError': BlockingIOError, 'EOFError': EOFError,
+    'LookupError': LookupError, 'ArithmeticError': ArithmeticError,
 }
 
 
@@ -214,6 +218,17 @@ def raise_chained(exc, msg, chain=None):
     elif chain == 'cause_group':
         raise exc(msg) from ExceptionGroup('grp', [ValueError('a'), KeyError('b')])
     raise exc(msg)
+
+
+def raise_in_frame(text, exc):
+    """raise the exception object exc from a frame whose function name and
+    file name ('<text>') contain `text`, so that the formatted traceback
+    carries these characters (C17; actions 'fail' / 'error' with key 'tb')"""
+    ns = {}
+    exec(compile('def f(e):\n    raise e\n', '<verif-tb>', 'exec'), ns)
+    ns['f'].__code__ = ns['f'].__code__.replace(
+        co_name=text, co_filename='<%s>' % text)
+    ns['f'](exc)
 
 
 # ---------------------------------------------------------------- barriers
@@ -677,6 +692,11 @@ class World:
                 continue
             if kind == 'ok':
                 continue
+            elif kind in ('fail', 'error') and 'tb' in a:
+                raise_in_frame(a['tb'], (
+                    test.failureException if kind == 'fail' else
+                    EXC[a.get('exc', 'ValueError')])(
+                        a.get('msg', 'scripted %s %s' % (kind, tid))))
             elif kind == 'fail':
                 test.fail(a.get('msg', 'scripted failure ' + tid))
             elif kind == 'error':
